@@ -58,7 +58,6 @@ func NewCtx(property, tier string, seed int64) *Ctx {
 	c.Scratch = Scratch(property)
 	c.known = map[string]int{}
 	c.nontrivial = map[string]struct{}{}
-	defer func() { _ = c.ReplayDir() }()
 	c.Ev = Evidence{PropertyID: property, Tier: tier, Seed: seed, Level: "model_checking", Coverage: map[string]any{}}
 	return c
 }
